@@ -315,7 +315,7 @@ func fill(t *rapid.T, rv reflect.Value, depth int) {
 			}
 		}
 	case reflect.Interface:
-		switch sim.Intn(t, 9, "any") {
+		switch sim.Intn(t, 10, "any") {
 		case 0:
 		case 1:
 			rv.Set(reflect.ValueOf(sim.Bool(t, "b")))
@@ -338,6 +338,9 @@ func fill(t *rapid.T, rv reflect.Value, depth int) {
 			rv.Set(reflect.ValueOf([]any{u, "s", map[string]any{"deep": u}}))
 		case 8:
 			rv.Set(reflect.ValueOf(map[string]any{"a": "b", "n": nil, "l": []any{true, 2.5}}))
+		case 9:
+			// plain data that happens to use the create key's name for something that names no type
+			rv.Set(reflect.ValueOf(map[string]any{"type": []any{2.5, "", nil, true}[sim.Intn(t, 4, "nontype")], "A": 1.5, "X": 2.5, "Name": "n"}))
 		default:
 			rv.Set(reflect.ValueOf([]any{1.5, "s", true}))
 		}
